@@ -108,11 +108,26 @@ func TestVerifC07(t *testing.T) {
 		depth = 7
 	}
 	r.Rule(fmt.Sprintf("BFS over all event histories (alphabet of %d session events: clock steps, received OPEN/KEEPALIVE/UPDATE/NOTIFICATION/malformed, write failure, manual stop, disposal, dial failure, foreign Loc-RIB change) "+
-		"up to depth %d from two roots (initial state; established session holding a learned route) per session configuration, each history replayed on a fresh real bgpServer under the virtual runtime (bound 0); oracle in every state", len(zvSessAlphabet), depth))
-	r.Require("left_established", "established_entered", "re_established")
+		"up to depth %d from two roots (initial state; established session holding a learned route) per session configuration, each history replayed on a fresh real bgpServer under the virtual runtime (bound 0); oracle in every state; "+
+		"plus every schedule (deviation bound 2, thorough 3) of {NOTIFICATION, malformed message} arriving while the import policy is replaced by {reject-all, set-localpref, accept-all}", len(zvSessAlphabet), depth))
+	r.Require("left_established", "established_entered", "re_established", "conc_left_established")
 	r.Extra("depth", depth)
 	cfgs := zvSessCfgs()
 	if r.IsReplay() {
+		var cc zvC07ConcCase
+		r.ReplayCase(&cc)
+		if cc.NewChain != "" {
+			for _, cfg := range cfgs {
+				if cfg.Name == cc.Cfg {
+					zvC07ConcRun(r, cfg, cc, append([]int{}, cc.Schedule...))
+				}
+			}
+			r.Count("left_established", 1)
+			r.Count("established_entered", 1)
+			r.Count("re_established", 1)
+			r.Count("conc_left_established", 1)
+			return
+		}
 		var c zvC07Case
 		r.ReplayCase(&c)
 		for _, cfg := range cfgs {
@@ -127,6 +142,7 @@ func TestVerifC07(t *testing.T) {
 		r.Count("left_established", 1)
 		r.Count("established_entered", 1)
 		r.Count("re_established", 1)
+		r.Count("conc_left_established", 1)
 		return
 	}
 	// BFS roots: the initial state and (start from non-initial states too) an established session that has learned a route
@@ -158,4 +174,5 @@ func TestVerifC07(t *testing.T) {
 		}
 		r.Nontrivial(1)
 	}
+	zvC07Concurrent(r, idx)
 }
